@@ -6,3 +6,5 @@ import JaxVerif.Properties.C18
 #print axioms JV.C18_generated_good
 #print axioms JV.C18_execmodule_violates
 #print axioms JV.C18_nowrite_skip_violates
+#print axioms JV.C18_source_to_code
+#print axioms JV.C18_source_get_code
